@@ -715,6 +715,7 @@ func c06RandomDists(rec *vu.Recorder, st *c06Stats, rng *rand.Rand, segs, per in
 type c06Shadow struct {
 	cpus map[string][]int
 	numa map[string][]c06Amt
+	excl map[string]string // exclusive policy of the last informer delivery
 }
 
 func (s *c06Shadow) refs() map[int]int {
@@ -787,7 +788,7 @@ func c06RandomHistory(rec *vu.Recorder, st *c06Stats, rng *rand.Rand, length int
 	}
 	w := c06NewWorld(reset)
 	rec.Reset(w.resetEvent())
-	sh := &c06Shadow{cpus: map[string][]int{}, numa: map[string][]c06Amt{}}
+	sh := &c06Shadow{cpus: map[string][]int{}, numa: map[string][]c06Amt{}, excl: map[string]string{}}
 	podNames := []string{"p1", "p2", "p3", "p4", "p5", "p6"}
 	emit := func(o *c06Op) vu.Ev {
 		ev := w.c06Exec(o)
@@ -857,14 +858,24 @@ func c06RandomHistory(rec *vu.Recorder, st *c06Stats, rng *rand.Rand, length int
 			}
 		case x < 72: // informer delivery
 			o := c06Op{Op: "update", Pod: c06Pick(rng, podNames), Excl: c06Pick(rng, c06Excls)}
-			if _, known := sh.cpus[o.Pod]; known && rng.Intn(2) == 0 {
+			if _, known := sh.cpus[o.Pod]; known && rng.Intn(3) == 0 {
 				o.Cpus, o.Numa = sh.cpus[o.Pod], sh.numa[o.Pod] // the same allocation again
+			} else if known && len(sh.numa[o.Pod]) > 0 && rng.Intn(2) == 0 {
+				// same CPUs, same policy, same NUMA nodes - only the per-NUMA amounts change (resize in place)
+				o.Cpus = sh.cpus[o.Pod]
+				if e, ok := sh.excl[o.Pod]; ok {
+					o.Excl = e
+				}
+				for _, a := range sh.numa[o.Pod] {
+					o.Numa = append(o.Numa, c06Amt{Node: a.Node, CPU: int64(rng.Intn(3)) * 500, Mem: int64(rng.Intn(4))})
+				}
 			} else {
 				o.Cpus = c06Subset(rng, sh.deliverable(w, o.Pod), 0.15+0.5*rng.Float64())
 				o.Numa = randNuma()
 			}
 			emit(&o)
 			sh.cpus[o.Pod], sh.numa[o.Pod] = c06Ints(o.Cpus), c06Amts(o.Numa)
+			sh.excl[o.Pod] = o.Excl
 		default: // release (sometimes a pod the node does not know)
 			o := c06Op{Op: "release", Pod: c06Pick(rng, podNames)}
 			if live := sh.pods(); len(live) > 0 && rng.Intn(4) != 0 {
